@@ -46,6 +46,49 @@ func expirationFn(r *Run, twin int) *ssa.Function {
 	return nil
 }
 
+// fieldRoles derives the canonical role names of unexported fields structurally: in each item type the int64
+// field is the expiration "e" and the other field the value "v"; in each cache type the atomic.Value field
+// loaded by the DefaultExpiration accessor is "defaultExpiration" and the one loaded by EvictedCallback is
+// "evictedCallback".
+func fieldRoles(r *Run) map[string]string {
+	out := map[string]string{}
+	for twin := 0; twin < 2; twin++ {
+		if obj := r.P.Cache.Pkg.Scope().Lookup(r.M.ItemT[twin]); obj != nil {
+			if st := core.StructOf(obj.Type()); st != nil && st.NumFields() == 2 {
+				for i := 0; i < 2; i++ {
+					if b, ok := st.Field(i).Type().Underlying().(*types.Basic); ok && b.Kind() == types.Int64 {
+						out[st.Field(i).Name()] = "e"
+						out[st.Field(1-i).Name()] = "v"
+					}
+				}
+			}
+		}
+		for acc, role := range map[string]string{"DefaultExpiration": "defaultExpiration", "EvictedCallback": "evictedCallback"} {
+			f := r.M.CacheM[twin][acc]
+			if f == nil {
+				continue
+			}
+			core.Instrs(f, func(in ssa.Instruction) {
+				if c, ok := in.(ssa.CallInstruction); ok && core.CalleeID(c) == "(*sync/atomic.Value).Load" {
+					if a := core.Addr(c.Common().Args[0]); a.Field != "" {
+						out[a.Field] = role
+					}
+				}
+			})
+		}
+	}
+	return out
+}
+
+// newInterp builds an evaluator with the run's canonical naming; opaqueTTL keeps the TTL computation opaque.
+func newInterp(r *Run, opaqueTTL bool) *sym.Interp {
+	it := &sym.Interp{P: r.P, M: r.M, MaxPaths: 500, FieldRole: fieldRoles(r)}
+	if opaqueTTL {
+		it.Opaque = opaqueFns(r)
+	}
+	return it
+}
+
 func methodPaths(r *Run, twin int, name string) *MethodPaths {
 	key := fmt.Sprintf("%d/%s", twin, name)
 	if mp, ok := r.mpMemo[key]; ok {
@@ -57,7 +100,8 @@ func methodPaths(r *Run, twin int, name string) *MethodPaths {
 	if f == nil {
 		return mp
 	}
-	it := &sym.Interp{P: r.P, M: r.M, Opaque: opaqueFns(r), MaxPaths: 5000}
+	it := newInterp(r, true)
+	it.MaxPaths = 5000
 	mp.Paths = it.Run(f)
 	mp.Overflow = it.Overflow
 	return mp
@@ -290,7 +334,7 @@ func classOf(p *sym.Path) string {
 		}
 		if a.T.Op == "cmp" {
 			str := a.T.String()
-			if (strings.Contains(str, "param:d") || strings.Contains(str, "aload:defaultExpiration")) && !strings.Contains(str, "mapold") {
+			if (strings.Contains(str, "param:") || strings.Contains(str, "aload:defaultExpiration")) && !strings.Contains(str, "mapold") && !strings.Contains(str, "aload:evictedCallback") && a.T.K != "==" || (a.T.K == "==" && strings.Contains(str, "const:") && strings.Contains(str, "param:")) {
 				add(fmt.Sprintf("%s=%v", normTerm(a.T), a.V))
 			}
 		}
